@@ -595,12 +595,54 @@ class CastUnmarshaller(AbstractUnmarshaller[T]):
         return self.caster(decoded)
 
 
-PathUnmarshaller = CastUnmarshaller[pathlib.Path]
 MappingUnmarshaller = CastUnmarshaller[tp.Mapping]
 IterableUnmarshaller = CastUnmarshaller[tp.Iterable]
 
+PathT = tp.TypeVar("PathT", bound=pathlib.PurePath)
+
+
+class PathUnmarshaller(AbstractUnmarshaller[PathT], tp.Generic[PathT]):
+    """Unmarshaller that converts an input to a [`pathlib.Path`][] (or subclasses).
+
+    Note:
+        A path is plain text: we decode bytes, but never interpret the text as
+        JSON or a literal expression (`"1"` and `"null"` are valid paths).
+
+    See Also:
+        - [`typelib.serdes.decode`][]
+    """
+
+    def __call__(self, val: tp.Any) -> PathT:
+        decoded = serdes.decode(val)
+        if isinstance(decoded, self.t):
+            return decoded
+        return self.t(decoded)
+
+
 EnumT = tp.TypeVar("EnumT", bound=enum.Enum)
-EnumUnmarshaller = CastUnmarshaller[EnumT]
+
+
+class EnumUnmarshaller(AbstractUnmarshaller[EnumT], tp.Generic[EnumT]):
+    """Unmarshaller that converts an input to a member of an [`enum.Enum`][].
+
+    Note:
+        We look the member up by the value as given (after decoding bytes). Only if
+        that fails do we attempt to load the value as JSON or a literal expression,
+        so members whose value is text such as `"1"` or `"null"` can be resolved.
+
+    See Also:
+        - [`typelib.serdes.decode`][]
+        - [`typelib.serdes.load`][]
+    """
+
+    def __call__(self, val: tp.Any) -> EnumT:
+        if isinstance(val, self.t):
+            return val
+        decoded = serdes.decode(val)
+        try:
+            return self.t(decoded)
+        except ValueError:
+            return self.t(serdes.load(decoded))
 
 
 LiteralT = tp.TypeVar("LiteralT")
